@@ -17,7 +17,8 @@ def setup():
         return 2
     bad = 0
     for f in sorted(glob.glob(os.path.join(pkverif.SPEC, "*.tla"))):
-        p = subprocess.run(["java", "-cp", pkverif.TLA_JAR, "tla2sany.SANY", f], cwd=pkverif.SPEC,
+        p = subprocess.run(["java", "-DTLA-Library=/opt/veriftools/tlapm/lib/tlapm/stdlib", "-cp", pkverif.TLA_JAR,
+                            "tla2sany.SANY", f], cwd=pkverif.SPEC,
                            stdout=subprocess.PIPE, stderr=subprocess.STDOUT, text=True)
         if p.returncode != 0 or "Semantic errors" in p.stdout or "Parse Error" in p.stdout or "Fatal" in p.stdout:
             log("setup: SANY rejects", f)
